@@ -58,7 +58,7 @@ def build_replay():
         import shutil
         shutil.copy(os.path.join(REPO, 'Cargo.lock'), lock)
     env = dict(os.environ, CARGO_NET_OFFLINE='true', RUSTFLAGS='--cfg anweiss_cddl_verif --cap-lints allow',
-               CARGO_TARGET_DIR=tdir)
+               CARGO_TARGET_DIR=tdir, CARGO_INCREMENTAL='0')
     r = sh(['cargo', 'build', '--offline', '--quiet'], cwd=crate, env=env)
     if r.returncode != 0:
         raise Undecided('replay-build-failed', r.stderr[-3000:])
